@@ -25,6 +25,8 @@ for m in ('c07', 'c10', 'c22', 'c23', 'c24', 'c25'):
             import harness; harness.build('reldist', 'stp', ['reldist.c'])
         else:
             mod.prepare('quick')
+        if m == 'c25':
+            importlib.import_module('props.c16').prepare()
         print('harness ok', m)
     except Exception as e:
         print('harness FAILED', m, e); sys.exit(1)
